@@ -1346,7 +1346,15 @@ class World:
                 # of the object (complete, current bytes) kept next to it.  The link is a cache file, the copy is
                 # the user's: removing/evicting the entry must remove the link, never the copy.
                 i = int(op["name"].split(":@k")[1]) % len(self.keys)
-                link = self.path_of_key[i]
+                # the user names the entry the way the cache names it: as an earlier request returned it, or - when
+                # the cache demonstrably follows the documented naming - by that rule.  Under a naming the run has
+                # not seen yet nothing can be pre-seeded.
+                seen = self.oracle.path_seen if self.oracle is not None else {}
+                link = seen.get(i)
+                if link is None and any(seen.get(j) == self.path_of_key[j] for j in seen):
+                    link = self.path_of_key[i]
+                if link is None:
+                    return
                 target = self.cache_dir + "/my_copy_of_k%d.bin" % i
                 obs.foreign_path = target
                 obs.foreign_bytes_only = True  # using the entry refreshes the recency of the file the link names
